@@ -37,7 +37,7 @@ func init() {
 	RegisterSub("C17", "crossbuild", RunC17CrossBuild)
 }
 
-const c17Rule = "history: catalogue struct types x random rows x random writer configuration (gen.RandWriterCfg + bloom filters, deferred blooms, key/value metadata, declared sorting columns, forced dictionary overflow) x instance history: the file written by an instance that was Reset after {abandoned, abandoned after row-by-row writes, flushed, closed, closed empty, failed sink, two generations, reset mid-file, random op sequence, SetKeyValueMetadata} over OTHER rows (for SortingWriter + DropDuplicatedRows also over copies of the row that sorts first in the new content, run sizes 1 / random / > rows) must equal byte-for-byte the file of a fresh instance; instances GenericWriter, Writer, SortingWriter, GenericBuffer/Buffer.Reset -> WriteRowGroup; repeated fresh writes on the same and on 3 other goroutines, and with the key/value options permuted; non-trivial = non-empty rows and a prior history that wrote rows. crossbuild: per catalogue type seeded (rows, config, write path) cases and 30k/400k encoder inputs (hybrid RLE int32/levels, delta binary packed, byte stream split), big-page files (one PLAIN column per numeric kind, pages filled to the default 256 KiB target and beyond, values across 2^31 / 2^63, NaN, -0.0) and Page.Bounds of pages at the kernel-switch lengths 32112..131071(..262144) whose sha256 / output bytes the asm and purego builds must agree on (digests exchanged through .build/out/C17-digests-<variant>.json); non-trivial = more than one row / at least 8 values. mirror (L2): a real Writer under a random history (first sink failing around the 4-byte file header and anywhere) vs the Lean mirror (reset.run), observation compared after every step; all cases non-trivial. repr (L1): catalogue types x random rows x the same rows RESPELLED (equal values in another memory layout: empty strings with a non-nil data pointer, strings / []byte at odd offsets inside larger arrays, slices with spare capacity, re-allocated pointers) x 4 (thorough: 6) write paths: byte-identical files; non-trivial = at least one value respelled; a third of the cross-build corpus is respelled too. hist (L1+L2): accumulateAndAppendPageLevelHistogram on slices with k earlier pages and a capacity of need-1, need, need+1, 2x, ... whose spare part holds zeros / earlier counts / -1, levels of 0..200 values in runs: appended block = the counts of the page (L1) and column histogram, slice, spare capacity = the Lean mirror ResetHist.appendPage (L2); real Writers of every catalogue type with a nullable or repeated column, abandoned mid row group / flushed / closed over other rows, then Reset (histogram fields and the arrays behind them before/after vs ResetHist.LevelHist.reset), then the rows in 1..3 row groups: every chunk's SizeStatistics / ColumnIndex level histograms vs the spec (LevelStats.chunkHists) of the levels decoded from its own pages; non-trivial = a page with levels appended to a slice with spare capacity / every writer case."
+const c17Rule = "history: catalogue struct types x random rows x random writer configuration (gen.RandWriterCfg + bloom filters, deferred blooms, key/value metadata, declared sorting columns, forced dictionary overflow) x instance history: the file written by an instance that was Reset after {abandoned, abandoned after row-by-row writes, flushed, closed, closed empty, failed sink, two generations, reset mid-file, random op sequence, SetKeyValueMetadata} over OTHER rows (for SortingWriter + DropDuplicatedRows also over copies of the row that sorts first in the new content, run sizes 1 / random / > rows) must equal byte-for-byte the file of a fresh instance; instances GenericWriter, Writer, SortingWriter, GenericWriter driven through WriteRowGroup only (rows handed over as an unsorted GenericBuffer / a sorted GenericBuffer declaring sorting columns / the row groups of a file written with the same options / with default options, drawn independently for the earlier content and the content under test; the writer mostly without sorting configuration of its own), GenericBuffer/Buffer.Reset -> WriteRowGroup; catalogue = shared catalogue + GEOMETRY/GEOGRAPHY types (gen.GeoCatalog: WKB values of layouts XY/XYZ/XYM/XYZM drawn per row set, empty geometries, NaN coordinates, non-WKB bytes); repeated fresh writes on the same and on 3 other goroutines, and with the key/value options permuted; non-trivial = non-empty rows and a prior history that wrote rows. crossbuild: per catalogue type seeded (rows, config, write path) cases and 30k/400k encoder inputs (hybrid RLE int32/levels, delta binary packed, byte stream split), big-page files (one PLAIN column per numeric kind, pages filled to the default 256 KiB target and beyond, values across 2^31 / 2^63, NaN, -0.0) and Page.Bounds of pages at the kernel-switch lengths 32112..131071(..262144) (int32, int64, uint32, uint64, float, double, and 16-byte big-endian values with few distinct high halves at lengths 3..32113) whose sha256 / output bytes the asm and purego builds must agree on (digests exchanged through .build/out/C17-digests-<variant>.json); non-trivial = more than one row / at least 8 values. mirror (L2): a real Writer under a random history (first sink failing around the 4-byte file header and anywhere) vs the Lean mirror (reset.run), observation compared after every step; all cases non-trivial. repr (L1): catalogue types x random rows x the same rows RESPELLED (equal values in another memory layout: empty strings with a non-nil data pointer, strings / []byte at odd offsets inside larger arrays, slices with spare capacity, re-allocated pointers) x 4 (thorough: 6) write paths: byte-identical files; non-trivial = at least one value respelled; a third of the cross-build corpus is respelled too. hist (L1+L2): accumulateAndAppendPageLevelHistogram on slices with k earlier pages and a capacity of need-1, need, need+1, 2x, ... whose spare part holds zeros / earlier counts / -1, levels of 0..200 values in runs: appended block = the counts of the page (L1) and column histogram, slice, spare capacity = the Lean mirror ResetHist.appendPage (L2); real Writers of every catalogue type with a nullable or repeated column, abandoned mid row group / flushed / closed over other rows, then Reset (histogram fields and the arrays behind them before/after vs ResetHist.LevelHist.reset), then the rows in 1..3 row groups: every chunk's SizeStatistics / ColumnIndex level histograms vs the spec (LevelStats.chunkHists) of the levels decoded from its own pages; non-trivial = a page with levels appended to a slice with spare capacity / every writer case. slots (L2): per catalogue type a GenericWriter with default options (one in four declaring sorting columns) x 1..8 ops {WriteRowGroup of a 1..5-row GenericBuffer declaring 0..2 sorting columns (sorted), Close+Reset}: the row groups the footer of the last file lists (column chunks, sorting_columns absent / empty / entries) vs the Lean mirror slots.run; non-trivial = at least one Reset and two row groups."
 
 // ---------------------------------------------------------------- configuration
 
@@ -61,7 +61,12 @@ type c17Cfg struct {
 	dedupe     bool // DropDuplicatedRows(true) next to the sorting columns (sorting writers)
 	overflow   int  // > 0: DictionaryMaxBytes(16) and this PageBufferSize override the base options
 	writeBuf0  bool // WriteBufferSize(0) overrides the base option: every write reaches the sink at once
-	desc       string
+	// instance kind generic-writer-write-row-group: where the row groups handed to WriteRowGroup come
+	// from, for the content under test and for the earlier content (c17RGSources), and the sorting
+	// columns the SOURCE row groups declare (the writer's own configuration is cfg.sorting)
+	rgSrc, rgSrcPrior string
+	rgSorting         []c17Sort
+	desc              string
 }
 
 func c17Path(p []string) string { return strings.Join(p, ".") }
@@ -245,7 +250,89 @@ const (
 	c17Generic = "generic-writer"
 	c17Refl    = "writer"
 	c17Sorting = "sorting-writer"
+	c17RG      = "generic-writer-write-row-group"
 )
+
+// c17RGWriter drives a GenericWriter through WriteRowGroup only: every write call hands the rows
+// over as row groups of one of the sources
+//
+//	buffer             GenericBuffer without sorting columns (rows copied through the row path)
+//	sorted-buffer      GenericBuffer declaring sorting columns, sorted (the writer records the
+//	                   row group's sorting columns when it has none configured itself)
+//	file-same-config   the row groups of a file written with the same options (verbatim chunk copy
+//	                   where the library supports it)
+//	file-other-config  the row groups of a file written with default options (column-wise re-encode)
+//
+// The earlier content may come from another source than the content under test.
+var c17RGSources = []string{"buffer", "sorted-buffer", "file-same-config", "file-other-config"}
+
+type c17RGWriter struct {
+	w     gen.StatefulWriter
+	e     *gen.Entry
+	cfg   *c17Cfg
+	final bool
+}
+
+func (t *c17RGWriter) beginFinal() { t.final = true }
+
+func (t *c17RGWriter) write(rows reflect.Value, lo, hi int) error {
+	if lo >= hi {
+		return nil
+	}
+	src := t.cfg.rgSrcPrior
+	if t.final {
+		src = t.cfg.rgSrc
+	}
+	part := rows.Slice(lo, hi)
+	switch src {
+	case "buffer", "sorted-buffer":
+		var ropts []parquet.RowGroupOption
+		sorted := src == "sorted-buffer" && len(t.cfg.rgSorting) > 0
+		if sorted {
+			ropts = append(ropts, parquet.SortingRowGroupConfig(parquet.SortingColumns(c17SortingColumns(t.cfg.rgSorting)...)))
+		}
+		b := t.e.NewTypedBuffer(ropts...)
+		if sorted {
+			for i := 0; i < part.Len(); i++ { // one row per call: see c17BufferFile
+				if _, err := b.Write(part.Slice(i, i+1).Interface()); err != nil {
+					return err
+				}
+			}
+			sort.Sort(b)
+		} else if _, err := b.Write(part.Interface()); err != nil {
+			return err
+		}
+		_, err := t.w.WriteRowGroup(b)
+		return err
+	default:
+		tmp := new(bytes.Buffer)
+		var opts []parquet.WriterOption
+		if src == "file-same-config" {
+			opts = t.cfg.opts()
+		}
+		fw := t.e.NewTypedWriter(tmp, opts...)
+		if _, err := fw.Write(part.Interface()); err != nil {
+			return err
+		}
+		if err := fw.Close(); err != nil {
+			return err
+		}
+		f, err := parquet.OpenFile(bytes.NewReader(tmp.Bytes()), int64(tmp.Len()))
+		if err != nil {
+			return err
+		}
+		for _, rg := range f.RowGroups() {
+			if _, err := t.w.WriteRowGroup(rg); err != nil {
+				return err
+			}
+		}
+		return nil
+	}
+}
+func (t *c17RGWriter) flush() error      { return t.w.Flush() }
+func (t *c17RGWriter) close() error      { return t.w.Close() }
+func (t *c17RGWriter) reset(w io.Writer) { t.w.Reset(w) }
+func (t *c17RGWriter) setKV(k, v string) { t.w.SetKeyValueMetadata(k, v) }
 
 func c17New(kind string, e *gen.Entry, cfg *c17Cfg, sortRows int64, out io.Writer) c17W {
 	switch kind {
@@ -253,6 +340,8 @@ func c17New(kind string, e *gen.Entry, cfg *c17Cfg, sortRows int64, out io.Write
 		return c17Typed{e.NewTypedWriter(out, cfg.opts()...)}
 	case c17Refl:
 		return c17Reflect{parquet.NewWriter(out, append([]parquet.WriterOption{e.Schema}, cfg.opts()...)...)}
+	case c17RG:
+		return &c17RGWriter{w: e.NewTypedWriter(out, cfg.opts()...), e: e, cfg: cfg}
 	default:
 		return c17Typed{e.NewTypedSortingWriter(out, sortRows, cfg.opts()...)}
 	}
@@ -323,6 +412,9 @@ func c17Run(kind string, e *gen.Entry, cfg *c17Cfg, sortRows int64, h *c17Histor
 		}); err != nil {
 			return nil, err, 0
 		}
+		if f, ok := w.(interface{ beginFinal() }); ok {
+			f.beginFinal()
+		}
 		err = c17WriteFinal(w, rows, batches)
 		return out.Bytes(), err, 0
 	}
@@ -374,6 +466,9 @@ func c17Run(kind string, e *gen.Entry, cfg *c17Cfg, sortRows int64, h *c17Histor
 	}
 	if err := c17Guard(func() error { w.reset(out); return nil }); err != nil {
 		return nil, err, priorErrs
+	}
+	if f, ok := w.(interface{ beginFinal() }); ok {
+		f.beginFinal()
 	}
 	err = c17WriteFinal(w, rows, batches)
 	return out.Bytes(), err, priorErrs
@@ -534,10 +629,16 @@ func c17GenRows(r *rand.Rand, e *gen.Entry, n int, small bool) reflect.Value {
 
 func RunC17History(ctx *core.Ctx) {
 	ctx.SetRule(c17Rule)
-	ncases := ctx.Scale(10, 80)
+	// thorough (round 4, to fit the 10-minute budget of the whole property on 16 cores): 24 cases per
+	// type on the asm build and 12 on the purego build (was 80 on both); the instance histories are
+	// build-independent Go code except for the kernels, which the crossbuild sub-check compares
+	ncases := ctx.Scale(10, 24)
+	if ctx.Thorough() && ctx.Variant == "purego" {
+		ncases = 12
+	}
 	var wg sync.WaitGroup
 	sem := make(chan struct{}, 16)
-	for _, e := range gen.Catalog {
+	for _, e := range gen.WithGeo() {
 		wg.Add(1)
 		sem <- struct{}{}
 		go func(e *gen.Entry) {
@@ -612,9 +713,20 @@ func c17HistoryCase(ctx *core.Ctx, e *gen.Entry, r *rand.Rand, sample bool) {
 			ctx.Fail("L1", what+" "+class, fmt.Sprintf("%s: file differs from a fresh %s's file, first difference: %s at %s", what, kind, class, label), detail(extra))
 		}
 	}
-	for _, kind := range []string{c17Generic, c17Refl, c17Sorting} {
+	for _, kind := range []string{c17Generic, c17Refl, c17Sorting, c17RG} {
 		kcfg := cfg
 		kbatches := batches
+		if kind == c17RG {
+			c2 := *cfg
+			c2.rgSrc, c2.rgSrcPrior = c17RGSources[r.Intn(len(c17RGSources))], c17RGSources[r.Intn(len(c17RGSources))]
+			if r.Intn(3) > 0 { // the writer itself declares no sorting columns: it records the row groups'
+				c2.sorting = nil
+			}
+			c2.rgSorting = c17RandSorting(r, e)
+			c2.desc += fmt.Sprintf(" +row-group-source=%s(earlier content: %s) source-sorting=%v writer-sorting=%v", c2.rgSrc, c2.rgSrcPrior, c2.rgSorting, c2.sorting)
+			kcfg = &c2
+			ctx.Hist("write-row-group-source", c2.rgSrc+" after "+c2.rgSrcPrior)
+		}
 		if kind == c17Sorting {
 			if len(cfg.sorting) == 0 {
 				c2 := *cfg
@@ -671,7 +783,7 @@ func c17HistoryCase(ctx *core.Ctx, e *gen.Entry, r *rand.Rand, sample bool) {
 		}
 		hs := c17Histories(r, np, true)
 		// quick tier: the completed-file history always, plus a rotating subset of the others
-		keep := map[string]int{c17Generic: ctx.Scale(4, len(hs)), c17Refl: ctx.Scale(2, 4), c17Sorting: ctx.Scale(1, 3)}[kind]
+		keep := map[string]int{c17Generic: ctx.Scale(4, len(hs)), c17Refl: ctx.Scale(2, 4), c17Sorting: ctx.Scale(1, 3), c17RG: ctx.Scale(2, 4)}[kind]
 		r.Shuffle(len(hs), func(i, j int) { hs[i], hs[j] = hs[j], hs[i] })
 		for i := range hs {
 			if hs[i].class == "closed" && i >= keep-1 {
@@ -854,9 +966,9 @@ func (c *c17XCase) detail(ctx *core.Ctx) map[string]any {
 }
 
 func c17XCases(ctx *core.Ctx) []*c17XCase {
-	ncases := ctx.Scale(8, 40)
+	ncases := ctx.Scale(8, 16) // thorough was 40 (round 4 budget)
 	var out []*c17XCase
-	for _, e := range gen.Catalog {
+	for _, e := range gen.WithGeo() {
 		r := ctx.Rand("c17x/" + e.Name)
 		for k := 0; k < ncases; k++ {
 			n := []int{1, 2, 7, 8, 9, 33, 64, 65, 100, 257, 300, 513}[r.Intn(12)]
@@ -905,7 +1017,7 @@ func c17RunLens(r *rand.Rand) int {
 
 func c17EncCases(ctx *core.Ctx) []*c17EncCase {
 	r := ctx.Rand("c17x/encodings")
-	n := ctx.Scale(30000, 400000)
+	n := ctx.Scale(30000, 120000) // thorough was 400000 (round 4 budget)
 	out := make([]*c17EncCase, 0, n)
 	for i := 0; i < n; i++ {
 		c := &c17EncCase{}
